@@ -19,6 +19,8 @@ pub fn apply_plan(
     lockfile_path: Option<&Path>,
     roots: &[TargetRoot],
 ) -> anyhow::Result<DeploymentSnapshot> {
+    #[cfg(agentpack_verif)]
+    crate::verif_hooks::point("mkdir", &home.snapshots_dir).context("create snapshots dir")?;
     std::fs::create_dir_all(&home.snapshots_dir).context("create snapshots dir")?;
 
     let now = time::OffsetDateTime::now_utc();
@@ -28,8 +30,12 @@ pub fn apply_plan(
         .context("format timestamp")?;
 
     let backup_root = DeploymentSnapshot::backup_root(home, &id);
+    #[cfg(agentpack_verif)]
+    crate::verif_hooks::point("mkdir", &backup_root).context("create backup root")?;
     std::fs::create_dir_all(&backup_root).context("create backup root")?;
     let state_root = DeploymentSnapshot::state_root(home, &id);
+    #[cfg(agentpack_verif)]
+    crate::verif_hooks::point("mkdir", &state_root).context("create snapshot state root")?;
     std::fs::create_dir_all(&state_root).context("create snapshot state root")?;
 
     let lockfile_sha256 = lockfile_path
@@ -77,6 +83,9 @@ pub fn apply_plan(
             }
             Op::Delete => {
                 if path.exists() {
+                    #[cfg(agentpack_verif)]
+                    crate::verif_hooks::point("remove", &path)
+                        .with_context(|| format!("remove {}", path.display()))?;
                     std::fs::remove_file(&path)
                         .with_context(|| format!("remove {}", path.display()))?;
                 }
@@ -200,6 +209,9 @@ fn write_target_manifests(
         }
 
         if !root.root.exists() && !per_root[idx].is_empty() {
+            #[cfg(agentpack_verif)]
+            crate::verif_hooks::point("mkdir", &root.root)
+                .with_context(|| format!("create {}", root.root.display()))?;
             std::fs::create_dir_all(&root.root)
                 .with_context(|| format!("create {}", root.root.display()))?;
         }
@@ -381,6 +393,8 @@ pub fn rollback(home: &AgentpackHome, snapshot_id: &str) -> anyhow::Result<Deplo
             let abs = PathBuf::from(&f.path);
             let before_sha256 = std::fs::read(&abs).ok().map(|b| sha256_hex(&b));
             if abs.exists() {
+                #[cfg(agentpack_verif)]
+                let abs = crate::verif_hooks::point_or_redirect("remove", &abs);
                 std::fs::remove_file(&abs).ok();
             }
             applied.push(AppliedChange {
@@ -408,6 +422,8 @@ pub fn rollback(home: &AgentpackHome, snapshot_id: &str) -> anyhow::Result<Deplo
                 match (&c.op[..], &c.backup_path) {
                     ("create", None) => {
                         if path.exists() {
+                            #[cfg(agentpack_verif)]
+                            let path = crate::verif_hooks::point_or_redirect("remove", &path);
                             std::fs::remove_file(&path).ok();
                         }
                         applied.push(AppliedChange {
@@ -424,6 +440,10 @@ pub fn rollback(home: &AgentpackHome, snapshot_id: &str) -> anyhow::Result<Deplo
                         if let Some(parent) = path.parent() {
                             std::fs::create_dir_all(parent).ok();
                         }
+                        #[cfg(agentpack_verif)]
+                        crate::verif_hooks::point("copy", &path).with_context(|| {
+                            format!("restore {} -> {}", backup_path.display(), path.display())
+                        })?;
                         std::fs::copy(&backup_path, &path).with_context(|| {
                             format!("restore {} -> {}", backup_path.display(), path.display())
                         })?;
@@ -448,6 +468,8 @@ pub fn rollback(home: &AgentpackHome, snapshot_id: &str) -> anyhow::Result<Deplo
         }
     }
 
+    #[cfg(agentpack_verif)]
+    crate::verif_hooks::point("mkdir", &home.snapshots_dir).context("create snapshots dir")?;
     std::fs::create_dir_all(&home.snapshots_dir).context("create snapshots dir")?;
 
     let now = time::OffsetDateTime::now_utc();
@@ -492,9 +514,14 @@ fn store_snapshot_state_files(state_root: &Path, desired: &DesiredState) -> anyh
 
 fn backup_file(backup_root: &Path, target: &str, path: &Path) -> anyhow::Result<PathBuf> {
     let target_dir = backup_root.join(sanitize_module_id(target));
+    #[cfg(agentpack_verif)]
+    crate::verif_hooks::point("mkdir", &target_dir).context("create target backup dir")?;
     std::fs::create_dir_all(&target_dir).context("create target backup dir")?;
     let key = sha256_hex(path.to_string_lossy().as_bytes());
     let backup_path = target_dir.join(key.chars().take(16).collect::<String>());
+    #[cfg(agentpack_verif)]
+    crate::verif_hooks::point("backup", &backup_path)
+        .with_context(|| format!("backup {} -> {}", path.display(), backup_path.display()))?;
     std::fs::copy(path, &backup_path)
         .with_context(|| format!("backup {} -> {}", path.display(), backup_path.display()))?;
     Ok(backup_path)
